@@ -140,6 +140,22 @@ Proof.
 Qed.
 Print Assumptions C18_circ_conv_is_circular.
 
+(* dtype promotion of convolve: the result is single precision exactly when both
+   operands are float32; an integer operand behaves like float64; the rule is
+   symmetric (neither operand is cast to the other's type).  The value theorems
+   above take x and w in ONE carrier R: integer and float32 samples embed exactly,
+   i.e. the result is computed in the promoted type, no operand is truncated. *)
+Theorem C18_convolve_dtype : forall dx dw,
+  (conv_result_dtype dx dw = F32 <-> dx = F32 /\ dw = F32) /\
+  (conv_result_dtype dx dw <> F32 -> conv_result_dtype dx dw = F64) /\
+  conv_result_dtype dx dw = conv_result_dtype dw dx /\
+  conv_result_dtype IntT dw = conv_result_dtype F64 dw.
+Proof.
+  intros dx dw. destruct dx, dw; cbn; repeat split; intros; try congruence; try tauto;
+    match goal with H : _ /\ _ |- _ => destruct H; congruence | _ => idtac end.
+Qed.
+Print Assumptions C18_convolve_dtype.
+
 (* mode='same', both parities of nsw, nsw > nsx included: nsx entries, entry i is
    entry i + (nsw-1) div 2 of the full result (SciPy's centring on the first argument). *)
 Theorem C18_fft_conv_same :
